@@ -108,6 +108,42 @@ Section Step.
     end.
 End Step.
 
+(** The same operations issued directly on a filesystem [b] (no BackupFS):
+    used to check the wrapper layers on real trees. *)
+Definition step_direct (b : fsapi) (o : op) : M obs :=
+  match o with
+  | OCreate n d => h <- a_create b n ;; write_close h d ;;; ret ObUnit
+  | OOpenWrite n fl perm d => h <- a_openfile b n fl perm ;; write_close h d ;;; ret ObUnit
+  | OMkdir n perm => a_mkdir b n perm ;;; ret ObUnit
+  | OMkdirAll n perm => a_mkdirall b n perm ;;; ret ObUnit
+  | ORemove n => a_remove b n ;;; ret ObUnit
+  | ORemoveAll n => a_removeall b n ;;; ret ObUnit
+  | ORename o n => a_rename b o n ;;; ret ObUnit
+  | OSymlink t n => a_symlink b t n ;;; ret ObUnit
+  | OChmod n m => a_chmod b n m ;;; ret ObUnit
+  | OChown n u g => a_chown b n u g ;;; ret ObUnit
+  | OLchown n u g => a_lchown b n u g ;;; ret ObUnit
+  | OChtimes n t => a_chtimes b n (Preset t) ;;; ret ObUnit
+  | OStat n => fi <- a_stat b n ;; ret (ObInfo fi)
+  | OLstat n => fi <- a_lstat b n ;; ret (ObInfo fi)
+  | OReadlink n => t <- a_readlink b n ;; ret (ObStr t)
+  | ORead n =>
+      h <- a_open b n ;;
+      r <- try_ (read_all tree_fuel h []) ;;
+      _ <- try_ (hclose h) ;;
+      d <- lift_res r ;; ret (ObData d)
+  | OReaddir n =>
+      h <- a_open b n ;;
+      r <- try_ (hreaddirnames h) ;;
+      _ <- try_ (hclose h) ;;
+      l <- lift_res r ;; ret (ObNames (sort_strings l))
+  | OExtWrite p d => h <- a_openfile osfs p 577 420 ;; write_close h d ;;; ret ObUnit
+  | OExtMkdirAll p => a_mkdirall osfs p 493 ;;; ret ObUnit
+  | OExtRemoveAll p => a_removeall osfs p ;;; ret ObUnit
+  | OExtSymlink t p => a_symlink osfs t p ;;; ret ObUnit
+  | _ => fail EOther
+  end.
+
 (** * Layerings.  base = HiddenFS hs (PrefixFS p OSFS), backup = PrefixFS q OSFS,
     each wrapper omitted when its parameter is absent; both spied.
     The README layering and New/NewWithFS on Linux are [Some]-less prefix,
